@@ -15,15 +15,14 @@ CONSTANTS
   MaxNaN = 0
   MaxCrit = 0
   SaveEverys <- MC_SaveEverys
-  SkipMode = "advance"
+  SkipMode = "lookahead"
   Classes <- MC_Classes
 INVARIANT TypeOK
-INVARIANT ExactlyOnceExceptT0
-INVARIANT T0NeverFires
+INVARIANT ExactlyOnce
 INVARIANT NeverTwice
 INVARIANT NeverEarlyOrLate
 INVARIANT DisabledNeverFires
-INVARIANT ExpectedStatusExceptT0
+INVARIANT ExpectedStatus
 INVARIANT SuccessIffAtTf
 INVARIANT StepBound
 PROPERTY NoStepCrossesSwitch
